@@ -22,6 +22,7 @@ from ..model import MPoint
 from ..session import Session, cfg_name, default_config, norm_points
 from . import c06
 
+REPLAY_BY_RERUN = True  # workloads are deterministic in (tier, seed, shard): replay re-runs the shard
 SHARDS = {"quick": 8, "thorough": 16}
 TIMEOUT = {"quick": 900, "thorough": 3600}
 N_HIST = {"quick": 3, "thorough": 40}
